@@ -116,6 +116,15 @@ def reset_process_state():
     mod = sys.modules.get("chaos")
     if mod is not None:
         mod._counter = 0
+        import _random
+
+        # module-level generators: put them into a fixed state without going through the
+        # (Pynguin-patched) Random.seed, so a run never depends on the runs before it
+        for name, sd in (("_DICE", 1234), ("_LOOSE", 4321)):
+            g = getattr(mod, name, None)
+            if g is not None:
+                _random.Random.seed(g, sd)
+                g.gauss_next = None
     from pynguin.testcase.execution_isolation import OutputSuppressionContext as OSC
 
     if OSC._null_file.closed:
@@ -163,6 +172,8 @@ _KINDS = {
     "new_rng": lambda r: [["new_rng", r.randrange(0, 9), r.randrange(0, 5)]],
     "unseeded_rng": lambda r: [["unseeded_rng", r.randrange(1, 5)]],
     "shuffle": lambda r: [["shuffle_and_pick", ["tuple", 3, 1, 2]]],
+    "dice": lambda r: [["dice", r.randrange(1, 5)]],
+    "loose_dice": lambda r: [["loose_dice", r.randrange(1, 4)]],
     "bump": lambda r: [["bump"]],
     "read_counter": lambda r: [["read_counter"]],
     "spin_inf": lambda r: [["spin", -1]],
@@ -170,7 +181,7 @@ _KINDS = {
 }
 _ATTACK = {"close_stream", "close_fd", "open_fd", "replace_stream", "print_after_close", "mute_logging",
            "root_level", "root_handler", "reseed", "boom", "spin_inf", "unseeded_rng"}
-_VICTIMS = ["shout", "roll", "plain", "new_rng", "log_noise", "shuffle", "shout", "roll"]
+_VICTIMS = ["shout", "roll", "plain", "new_rng", "log_noise", "shuffle", "dice", "loose_dice", "dice"]
 
 
 def gen_desc(r) -> dict:
@@ -230,7 +241,7 @@ def build_tc(desc):
 
 _STREAM_FUNCS = {"close_stream", "close_fd", "open_fd_as_file", "replace_stream", "print_after_close"}
 _LOGGING_FUNCS = {"mute_logging", "set_root_level", "add_root_handler"}
-_RANDOM_FUNCS = {"reseed", "roll", "shuffle_and_pick", "unseeded_rng", "new_rng"}
+_RANDOM_FUNCS = {"reseed", "roll", "shuffle_and_pick", "unseeded_rng", "new_rng", "dice", "loose_dice"}
 
 
 def _attributable(diff_keys, abandoned_funcs) -> str | None:
